@@ -67,22 +67,24 @@ inductive Tag
 
 def b (src : Bytes) (i : Nat) : Nat := (src.getD i 0).toNat
 
+/-- `uint(k) > uint(len(src))`, computed without walking the whole list -/
+def shorter (src : Bytes) (k : Nat) : Bool := (src.take k).length < k
+
 /-- parse the tag at the head of a non-empty `src` (the `switch src[s] & 0x03` with its `s += k` and
     `uint(s) > uint(len(src))` checks) -/
 def parseTag (src : Bytes) : Tag :=
   let t := b src 0
-  let n := src.length
   match t % 4 with
   | 0 =>
     let x := t / 4
     if x < 60 then .lit 1 (x + 1)
-    else if x = 60 then (if 2 > n then .bad else .lit 2 (b src 1 + 1))
-    else if x = 61 then (if 3 > n then .bad else .lit 3 (b src 1 + 256 * b src 2 + 1))
-    else if x = 62 then (if 4 > n then .bad else .lit 4 (b src 1 + 256 * b src 2 + 65536 * b src 3 + 1))
-    else (if 5 > n then .bad else .lit 5 (b src 1 + 256 * b src 2 + 65536 * b src 3 + 16777216 * b src 4 + 1))
-  | 1 => if 2 > n then .bad else .copy 2 ((t / 32) * 256 + b src 1) (4 + (t / 4) % 8)
-  | 2 => if 3 > n then .bad else .copy 3 (b src 1 + 256 * b src 2) (1 + t / 4)
-  | _ => if 5 > n then .bad
+    else if x = 60 then (if shorter src 2 then .bad else .lit 2 (b src 1 + 1))
+    else if x = 61 then (if shorter src 3 then .bad else .lit 3 (b src 1 + 256 * b src 2 + 1))
+    else if x = 62 then (if shorter src 4 then .bad else .lit 4 (b src 1 + 256 * b src 2 + 65536 * b src 3 + 1))
+    else (if shorter src 5 then .bad else .lit 5 (b src 1 + 256 * b src 2 + 65536 * b src 3 + 16777216 * b src 4 + 1))
+  | 1 => if shorter src 2 then .bad else .copy 2 ((t / 32) * 256 + b src 1) (4 + (t / 4) % 8)
+  | 2 => if shorter src 3 then .bad else .copy 3 (b src 1 + 256 * b src 2) (1 + t / 4)
+  | _ => if shorter src 5 then .bad
          else .copy 5 (b src 1 + 256 * b src 2 + 65536 * b src 3 + 16777216 * b src 4) (1 + t / 4)
 
 /-- one iteration of the `for s < len(src)` loop of `decode`: remaining source and extended destination -/
@@ -90,8 +92,10 @@ def decodeStep (dLen : Nat) (src : Bytes) (dst : Array UInt8) : Except DErr (Byt
   match parseTag src with
   | .bad => .error .corrupt
   | .lit hdr length =>
-    if length > dLen - dst.size ∨ length > src.length - hdr then .error .corrupt
-    else .ok (src.drop (hdr + length), dst ++ ((src.drop hdr).take length).toArray)
+    let lit := (src.drop hdr).take length
+    -- `length > len(src)-s`  ⇔  fewer than `length` bytes follow the header
+    if length > dLen - dst.size ∨ lit.length < length then .error .corrupt
+    else .ok (src.drop (hdr + length), dst ++ lit.toArray)
   | .copy hdr offset length =>
     if offset = 0 ∨ dst.size < offset ∨ length > dLen - dst.size then .error .corrupt
     else .ok (src.drop hdr, copyFwd dst offset length)
